@@ -49,6 +49,7 @@ type FuncContract struct {
 	Src            []string // raw lines, printed in evidence for trusted contracts
 	NoPanicSkip    bool
 	Uses           []string // local axioms (laxiom) to instantiate in this function's obligations
+	Constructs     bool     // runs before its receiver/argument object is shared (constructor, option): field discipline does not apply
 	CallsUnderLock bool     // may call handlers/externals while holding its lock (Agent.Close: the property's carve-out)
 	ViewResult     bool     // result is an attribute-value view (C07 strict-view duty applies to re-slices)
 	ResultType     string   // dynamic type of an interface-typed result (calls on it resolve statically)
@@ -89,6 +90,10 @@ type Guard struct {
 	Type, Mutex string
 	Fields      map[string]bool
 	Props       []string
+	// shared <Type>: atomic f, ...; frozen g, ...; sync h, ...  (every field of the type must then be classified)
+	Atomic, Frozen, Sync map[string]bool
+	Complete             bool
+	SharedProps          []string
 }
 
 type ContractSet struct {
@@ -132,6 +137,14 @@ func desugar(s string) string {
 			depth := 0
 			j := i
 			for ; j < len(s); j++ {
+				if s[j] == '"' { // skip string literals: brackets inside them do not nest
+					for j++; j < len(s) && s[j] != '"'; j++ {
+						if s[j] == '\\' {
+							j++
+						}
+					}
+					continue
+				}
 				if s[j] == c {
 					depth++
 				} else if s[j] == close {
@@ -210,6 +223,14 @@ func splitTopStr(s, sep string) []string {
 	depth := 0
 	last := 0
 	for i := 0; i < len(s); i++ {
+		if s[i] == '"' { // string literal: no structure inside
+			for i++; i < len(s) && s[i] != '"'; i++ {
+				if s[i] == '\\' {
+					i++
+				}
+			}
+			continue
+		}
 		switch s[i] {
 		case '(', '[', '{':
 			depth++
@@ -293,7 +314,7 @@ func (cs *ContractSet) parseFile(path string) error {
 			}
 			return &Clause{Kind: kind, Src: rest, Expr: e, Props: append([]string(nil), props...), Line: where}, nil
 		}
-		if cur != nil && kw != "func" && kw != "extern" && kw != "define" && kw != "spec" && kw != "axiom" && kw != "lemma" && kw != "qaxiom" && kw != "laxiom" && kw != "guard" {
+		if cur != nil && kw != "func" && kw != "extern" && kw != "define" && kw != "spec" && kw != "axiom" && kw != "lemma" && kw != "qaxiom" && kw != "laxiom" && kw != "guard" && kw != "shared" {
 			cur.Src = append(cur.Src, l)
 		}
 		switch kw {
@@ -316,6 +337,40 @@ func (cs *ContractSet) parseFile(path string) error {
 			}
 			cs.Guards[tn] = g
 			cur = nil
+		case "shared":
+			// shared Client: atomic rto, maxAttempts; frozen c, a; sync wg, mux
+			lhs, rhs, _ := strings.Cut(rest, ":")
+			tn := strings.TrimSpace(lhs)
+			g := cs.Guards[tn]
+			if g == nil {
+				g = &Guard{Type: tn, Fields: map[string]bool{}}
+				cs.Guards[tn] = g
+			}
+			g.Atomic, g.Frozen, g.Sync = map[string]bool{}, map[string]bool{}, map[string]bool{}
+			g.Complete = true
+			g.SharedProps = append([]string(nil), props...)
+			for _, part := range strings.Split(rhs, ";") {
+				kind, list, _ := strings.Cut(strings.TrimSpace(part), " ")
+				for _, f := range strings.Split(list, ",") {
+					f = strings.TrimSpace(f)
+					if f == "" {
+						continue
+					}
+					switch kind {
+					case "atomic":
+						g.Atomic[f] = true
+					case "frozen":
+						g.Frozen[f] = true
+					case "sync":
+						g.Sync[f] = true
+					default:
+						return fmt.Errorf("%s: shared: unknown class %q", where, kind)
+					}
+				}
+			}
+			cur = nil
+		case "constructs":
+			cur.Constructs = true
 		case "callsunderlock":
 			cur.CallsUnderLock = true
 		case "uses":
